@@ -37,10 +37,39 @@ def classes_from_tlc(run):
                                  for m in re.finditer(r'<<"CLASS5", (\d+), (\d+), (TRUE|FALSE)>>', out)))
     if not any(c[2] for c in INVALID_CLASSES):
         raise ToolError("HashOrder.tla emitted no sensitive class for site 5")
+    # site 6 (the first two entries of a map with irrelevant entries): (entries, irrelevant entries, sensitive)
+    global PAIR_CLASSES
+    PAIR_CLASSES = sorted(set((int(m.group(1)), int(m.group(2)), m.group(3) == "TRUE")
+                              for m in re.finditer(r'<<"CLASS6", (\d+), (\d+), (TRUE|FALSE)>>', out)))
+    if not any(c[2] for c in PAIR_CLASSES):
+        raise ToolError("HashOrder.tla emitted no sensitive class for site 6")
     return sorted(cls)
 
 
 INVALID_CLASSES = []
+PAIR_CLASSES = []
+
+
+def cancelled_pair_inputs(base):
+    """Site 6: a transaction whose residual holds `zero` commodities that cancel exactly next to two of opposite sign (the
+    shape of an implied exchange); whether okane accepts it or not, it must decide the same way in every process."""
+    jobs = []
+    for (n, zero, sensitive) in PAIR_CLASSES:
+        if not sensitive or n > len(COMMODITIES):
+            continue
+        d = os.path.join(base, "pair_n%d_z%d" % (n, zero))
+        cs = COMMODITIES[:n]
+        # interleave: the cancelling commodities are spread over the alphabet so that no fixed order hides the walk
+        zeros = cs[1::2][:zero] + [c for c in cs[0::2]][:max(0, zero - len(cs[1::2]))]
+        pair = [c for c in cs if c not in zeros][:2]
+        t = "2024/01/01 swap with cancelled legs\n"
+        for c in zeros:
+            t += "    Assets:Wallet  10 %s\n    Assets:Other  -10 %s\n" % (c, c)
+        t += "    Assets:Wallet  5 %s\n    Assets:Wallet  -800 %s\n\n" % (pair[0], pair[1])
+        p = write(d, "cancelled_pair.ledger", t)
+        for cmd in ("balance", "register"):
+            jobs.append(("cancelled_pair n=%d zero=%d" % (n, zero), [cmd, p]))
+    return jobs
 
 
 def invalid_template_inputs(base):
@@ -166,6 +195,15 @@ def build_inputs(base, classes, tier):
                 jobs.append(("missing_rate n=%d" % n, ["register", "-X", "QQQ"] + now + [p]) if False else ("missing_rate n=%d" % n, ["balance", "-X", "QQQ", "--historical"] + now + [p]))
                 p = write(d, "sum_as_cost.ledger", "2024/01/01 t\n    Assets:A  1 QQQ @ (%s)\n    Equity:Opening\n" % " + ".join("%d %s" % (i + 1, c) for i, c in enumerate(COMMODITIES[:n])))
                 jobs.append(("pick_single n=%d" % n, ["balance", p]))
+                # ... and a sum whose n commodities all cancel to zero, as a posting amount, a cost and an assertion: if okane
+                # takes it for a zero amount, the commodity it shows must not be whichever entry the map yields first
+                if n >= 2:
+                    zero_sum = " + ".join("%d %s - %d %s" % (i + 20, c, i + 20, c) for i, c in enumerate(COMMODITIES[:n]))
+                    p = write(d, "cancel_all.ledger", "2024/01/01 t\n    Assets:A  (%s)\n    Assets:B  5 QQQ\n    Equity:Opening\n" % zero_sum)
+                    for cmd in ("balance", "register"):
+                        jobs.append(("pick_single n=%d" % n, [cmd, p]))
+                    p = write(d, "cancel_all_assert.ledger", "2024/01/01 t\n    Assets:A  5 QQQ = (%s)\n    Equity:Opening\n" % zero_sum)
+                    jobs.append(("pick_single n=%d" % n, ["register", p]))
         if n >= 2:
             p = write(d, "chains.ledger", equal_chains_ledger(n, distinct))
             for x in ("DST", "SRC"):
@@ -228,7 +266,7 @@ def check(run):
     shutil.rmtree(base, ignore_errors=True)
     os.makedirs(base)
     binary = okane_bin()
-    jobs = build_inputs(base, classes, run.tier) + invalid_template_inputs(base) + corpus_inputs(base, run)
+    jobs = build_inputs(base, classes, run.tier) + invalid_template_inputs(base) + cancelled_pair_inputs(base) + corpus_inputs(base, run)
     by_class = {}
     for label, args in jobs:
         outs = run_n(binary, args, n_runs)
@@ -240,7 +278,7 @@ def check(run):
                 run.report("crash_" + label.split(" ")[0], {"class": label, "argv": args, "_mode": "c13"}, {"status": o[0], "stderr": o[2].decode(errors="replace")[-500:]},
                            "crash: `okane %s` died with signal %d" % (" ".join(args), -o[0]))
                 break
-        expect_ok = not label.startswith(("error_text", "pick_single", "corpus", "missing_rate", "missing_labels", "invalid_templates", "unbalanced")) and not (label.startswith("implied_pair") and "--historical" in args)
+        expect_ok = not label.startswith(("error_text", "pick_single", "corpus", "missing_rate", "missing_labels", "invalid_templates", "unbalanced", "cancelled_pair")) and not (label.startswith("implied_pair") and "--historical" in args)
         if expect_ok and any(o[0] != 0 for o in outs):
             bad = next(o for o in outs if o[0] != 0)
             raise ToolError("generator defect: `okane %s` (class %s) is expected to succeed but fails: %s" % (" ".join(args), label, bad[2].decode(errors="replace")[-600:]))
